@@ -189,6 +189,13 @@ func c01Split(c *core.Ctx, lines []string) (ids []int, contents []string) {
 		// Line endings are part of the configuration space too.
 		contents = append(contents, util.LinesEOL(parts[i], []string{"\n", "\n", "\r\n"}[c.Rng.Intn(3)]))
 	}
+	// Lists without a single rule (empty, comments, rejected lines) anywhere
+	// among the others.
+	for k := 0; k < 2 && len(ids) < len(pool) && c.Rng.Intn(4) == 0; k++ {
+		at := c.Rng.Intn(len(ids) + 1)
+		ids = append(ids[:at], append([]int{pool[perm[len(ids)]]}, ids[at:]...)...)
+		contents = append(contents[:at], append([]string{[]string{"", "! comments only\n# nothing else\n", "||rejected^$nosuchmodifier\n\n", "\n\n"}[c.Rng.Intn(4)]}, contents[at:]...)...)
+	}
 
 	return ids, contents
 }
